@@ -63,12 +63,12 @@ failure-output = "never"
 success-output = "never"
 [profile.default.junit]
 path = "@JUNIT@"
-store-success-output = true
+store-success-output = false
 store-failure-output = true
 '''
         sc.cli = []
         sc.env = {"NEXTEST_RUN_ID": "evil-inherited"}
-        sc.meta = {"tests": tests, "retries": 2, "threads": 2, "heavy": False, "grace": GRACE, "delay_ms": 0, "backoff": "fixed", "run_ignored": "default", "extra": False, "store_s": True, "store_f": True}
+        sc.meta = {"tests": tests, "retries": 2, "threads": 2, "heavy": False, "group_m": None, "grace": GRACE, "delay_ms": 0, "backoff": "fixed", "run_ignored": "default", "extra": False, "store_s": False, "store_f": True}
         return sc
     retries = rng.choice([0, 0, 1, 2])
     threads = rng.choice([1, 2, 4])
@@ -93,8 +93,10 @@ store-failure-output = true
     heavy = rng.random() < 0.3
     cli_threads = rng.choice([None, threads + 2]) if heavy else None
     grace = rng.choice([GRACE, GRACE, 0])
+    group_m = rng.choice([None, None, 1, 2, 8])
+    if k == 1: group_m, threads = 8, 2       # corpus: a group wider than the run
     pol = f'retries = {retries}' if not delay_ms else (f'retries = {{ backoff = "fixed", count = {retries}, delay = "{delay_ms}ms" }}' if backoff == "fixed" else f'retries = {{ backoff = "exponential", count = {retries}, delay = "{delay_ms}ms" }}')
-    sc.config = f'''[profile.default]
+    sc.config = (f"[test-groups]\ng1 = {{ max-threads = {group_m} }}\n" if group_m else "") + f'''[profile.default]
 {pol}
 test-threads = {threads}
 fail-fast = false
@@ -116,7 +118,11 @@ run-extra-args = ["--extra", "arg with space"]
 [[profile.default.overrides]]
 filter = 'binary(t_three)'
 threads-required = "num-test-threads"
-''' if heavy else "")
+''' if heavy else "") + ('''
+[[profile.default.overrides]]
+filter = 'binary(t_two)'
+test-group = 'g1'
+''' if group_m else "")
     sc.cli = ["--run-ignored", run_ignored] + (["--retries", str(cli_retries)] if cli_retries is not None else []) + (["-j", str(cli_threads)] if cli_threads else [])
     if cli_retries is not None:
         retries_eff, delay_ms = cli_retries, 0
@@ -126,7 +132,7 @@ threads-required = "num-test-threads"
     sc.env = {"NEXTEST_RUN_ID": "evil-inherited", "NEXTEST_EXECUTION_MODE": "evil", "CARGO_PKG_NAME": "evil", "VT_MARK": "x"}
     sc.timeout_s = 90
     sc.meta = {"tests": tests, "retries": retries_eff, "threads": threads, "heavy": heavy, "grace": grace, "delay_ms": delay_ms, "backoff": backoff, "run_ignored": run_ignored, "extra": extra,
-               "store_s": store_s, "store_f": store_f}
+               "store_s": store_s, "store_f": store_f, "group_m": group_m}
     return sc
 
 
@@ -372,6 +378,10 @@ def mon_junit(sc, r):
         flaky = len(c.findall("flakyFailure")) + len(c.findall("flakyError")); rerun = len(c.findall("rerunFailure")) + len(c.findall("rerunError"))
         if final_ok and (flaky != len(exp) - 1 or rerun): out.append(viol(sc, r, "junit-reruns", f"test {t['name']!r}: passed after {len(exp) - 1} failed attempts but has {flaky} flakyFailure / {rerun} rerunFailure"))
         if not final_ok and (rerun != len(exp) - 1 or flaky): out.append(viol(sc, r, "junit-reruns", f"test {t['name']!r}: failed after {len(exp)} attempts but has {rerun} rerunFailure / {flaky} flakyFailure"))
+        # failed attempts of a flaky test are failures: their output is stored iff store-failure-output
+        for ff in c.findall("flakyFailure") + c.findall("flakyError") + c.findall("rerunFailure") + c.findall("rerunError"):
+            has = ff.find("system-out") is not None or ff.find("system-err") is not None
+            if has != sc.meta["store_f"]: out.append(viol(sc, r, "junit-store", f"test {t['name']!r}: a failed attempt ({ff.tag}) has stored output = {has}, store-failure-output = {sc.meta['store_f']}"))
         stored = c.find("system-out") is not None or c.find("system-err") is not None
         want_store = sc.meta["store_s"] if final_ok else sc.meta["store_f"]
         if final_ok and stored != want_store: out.append(viol(sc, r, "junit-store", f"test {t['name']!r}: passing test output stored={stored}, store-success-output={sc.meta['store_s']}"))
@@ -382,7 +392,8 @@ def mon_junit(sc, r):
                 for spec in (a["out"], a["err"]):
                     if spec and spec[2] == "ascii" and spec[1] >= 10:
                         data = xxh64.pattern(spec[0], spec[1], "ascii").decode()
-                        cnt = sum(t.count(data) for t in texts)
+                        # the patterns are periodic: a short one recurs inside a long one, so count stored elements that *are* this output
+                        cnt = sum(1 for t in texts if data in t and len(t) - len(data) < 64)
                         if cnt != 1: out.append(viol(sc, r, "junit-attribution", f"test {t['name']!r}: the output of attempt {k + 1} is stored {cnt} times in its testcase (must be exactly once)"))
         n_fail += 0 if final_ok else 1
         n_flaky += 1 if final_ok and len(exp) > 1 else 0
@@ -427,9 +438,29 @@ def mon_concurrency(sc, r):
         s = {p["env"].get("NEXTEST_TEST_GLOBAL_SLOT") for p in procs}
         if len(s) > 1: out.append(viol(sc, r, "slot-stable", f"attempts of {n!r} saw different global slots {sorted(s)}"))
         g = {p["env"].get("NEXTEST_TEST_GROUP") for p in procs}
-        if g != {"@global"}: out.append(viol(sc, r, "group-env", f"NEXTEST_TEST_GROUP of {n!r} is {sorted(map(str, g))}, expected @global"))
         gs = {p["env"].get("NEXTEST_TEST_GROUP_SLOT") for p in procs}
-        if gs != {"none"}: out.append(viol(sc, r, "group-env", f"NEXTEST_TEST_GROUP_SLOT of {n!r} is {sorted(map(str, gs))}, expected none"))
+        M = sc.meta.get("group_m")
+        if M and b == "t_two":
+            if g != {"g1"}: out.append(viol(sc, r, "group-env", f"NEXTEST_TEST_GROUP of {n!r} (in group g1) is {sorted(map(str, g))}"))
+            if len(gs) != 1 or not all(x is not None and x.isdigit() and int(x) < M for x in gs): out.append(viol(sc, r, "group-slot", f"NEXTEST_TEST_GROUP_SLOT of {n!r} over its attempts is {sorted(map(str, gs))}; group g1 has max-threads = {M}"))
+        else:
+            if g != {"@global"}: out.append(viol(sc, r, "group-env", f"NEXTEST_TEST_GROUP of {n!r} is {sorted(map(str, g))}, expected @global"))
+            if gs != {"none"}: out.append(viol(sc, r, "group-env", f"NEXTEST_TEST_GROUP_SLOT of {n!r} is {sorted(map(str, gs))}, expected none"))
+    pbt = procs_by_test(r)
+    for t in sc.meta["tests"]:
+        if selected(sc, t) and not pbt.get((t["bin"], t["name"])):
+            out.append(viol(sc, r, "no-slot", f"selected test {t['name']!r} ({'group g1' if sc.meta.get('group_m') and t['bin'] == 't_two' else 'no group'}) was never given a slot and never ran in an un-cancelled run (exit {r.exit}): {r.stderr[-200:]!r}"))
+    M = sc.meta.get("group_m")
+    if M:
+        alive = []
+        for (t, kind, p) in evs:
+            if p["bin"] != "t_two": continue
+            if kind == 1:
+                alive.append(p)
+                if len(alive) > M: out.append(viol(sc, r, "group-threads", f"{len(alive)} tests of group g1 alive at once, max-threads = {M}")); break
+                sl = [q["env"].get("NEXTEST_TEST_GROUP_SLOT") for q in alive]
+                if len(set(sl)) != len(sl): out.append(viol(sc, r, "group-slot", f"overlapping tests of group g1 share a group slot: {sl}")); break
+            else: alive = [q for q in alive if q is not p]
     return out
 
 
